@@ -317,7 +317,7 @@ func c16Spaces(c *fw.Ctx) {
 	c16NonCanonicalSpace(c)
 	c16PrivateSpace(c)
 	c16FailedSignSpace(c)
-	c.Space("msg", "messages with all four sections populated (C01 pool + OPT + SVCB + APL + NSEC): Copy and CopyTo vs original, Unpack vs its buffer (every octet overwritten), Pack/PackBuffer/Len/String/Copy read-only; 24 rotations; non-trivial: all", true,
+	c.Space("msg", "messages with all four sections populated (C01 pool + OPT + SVCB + APL + NSEC): Copy and CopyTo vs original (also with every subset of the four sections emptied by reslicing, into a fresh and a used target), Unpack vs its buffer (every octet overwritten), Pack/PackBuffer/Len/String/Copy read-only; 24 rotations; non-trivial: all", true,
 		func(emit func(func(*fw.R))) {
 			pool := append(c01Pool(),
 				wire.RR{Type: 41, Class: 4096, TTL: 0x8000, Vals: enum.Max(wire.Specs[41])},
@@ -359,6 +359,54 @@ func c16Spaces(c *fw.Ctx) {
 						mutateAll(a)
 						if sb2, _ := graph(b, false, false); sb2 != sb {
 							r.Fail("msg-copy-sees-writes/"+how, "writing through the original changed the copy")
+						}
+					}
+					// sections (and the question) emptied by reslicing keep their backing arrays: a copy may not take
+					// them over — the first append to the copy and the first append to the original would write the same
+					// element — into a fresh and into a used target
+					for _, how := range []string{"Copy", "CopyTo", "CopyTo-used"} {
+						for mask := 1; mask < 16; mask++ {
+							a = mk()
+							if mask&1 != 0 {
+								a.Question = a.Question[:0]
+							}
+							if mask&2 != 0 {
+								a.Answer = a.Answer[:0]
+							}
+							if mask&4 != 0 {
+								a.Ns = a.Ns[:0]
+							}
+							if mask&8 != 0 {
+								a.Extra = a.Extra[:0]
+							}
+							var b *dns.Msg
+							switch how {
+							case "Copy":
+								b = a.Copy()
+							case "CopyTo":
+								b = a.CopyTo(new(dns.Msg))
+							default:
+								b = a.CopyTo(mk())
+							}
+							marker := &dns.TXT{Hdr: dns.RR_Header{Name: "copy.", Rrtype: dns.TypeTXT, Class: 1}, Txt: []string{"appended to the copy"}}
+							b.Question = append(b.Question, dns.Question{Name: "copy.", Qtype: 1, Qclass: 1})
+							b.Answer, b.Ns, b.Extra = append(b.Answer, marker), append(b.Ns, marker), append(b.Extra, marker)
+							for si, sec := range [][]dns.RR{a.Answer[:cap(a.Answer)], a.Ns[:cap(a.Ns)], a.Extra[:cap(a.Extra)]} {
+								for _, x := range sec {
+									if x == dns.RR(marker) {
+										r.Fail("msg-copy-shares-memory/"+how+"/emptied-section", "Msg.%s of a message whose sections %04b were emptied by reslicing: a record appended to section %d of the copy appeared in the original's backing array", how, mask, si)
+									}
+								}
+							}
+							for _, q := range a.Question[:cap(a.Question)] {
+								if q.Name == "copy." {
+									r.Fail("msg-copy-shares-memory/"+how+"/emptied-question", "Msg.%s of a message whose question section was emptied by reslicing (mask %04b): a question appended to the copy appeared in the original's backing array", how, mask)
+								}
+							}
+							wantQ, wantA := len(a.Question)+1, len(a.Answer)+1
+							if len(b.Question) != wantQ || len(b.Answer) != wantA {
+								r.Fail("msg-copy-differs/"+how+"/emptied-section", "Msg.%s (mask %04b): the copy had %d questions and %d answers before the append, the original %d and %d", how, mask, len(b.Question)-1, len(b.Answer)-1, len(a.Question), len(a.Answer))
+							}
 						}
 					}
 					// unpack vs buffer
